@@ -50,6 +50,7 @@ type sig struct {
 
 type eng struct {
 	root, data, groups, static string
+	liveNames                  []string // groups made live by op `live` in this case
 
 	k     int            // version counter
 	tags  map[int]string // version -> entity tag
@@ -110,6 +111,7 @@ func (e *eng) Reset() {
 	group.DataDirectory = e.data
 	token.SetStatefulFilename(filepath.Join(e.data, "var", "tokens.jsonl"))
 	group.VerifApiForgetGroups() // no group is live at the start of a case (op `live`)
+	e.liveNames = nil
 	e.k = 0
 	e.tags = map[int]string{}
 	e.tagOf = map[string]int{}
@@ -247,6 +249,9 @@ func (e *eng) Exec(op []string) string {
 		return e.doReq(op[1:], op[1])
 	case "live": // live <name>: group.Add(name, nil), the group is in memory from now on
 		_, err := group.Add(op[1], nil)
+		if err == nil {
+			e.liveNames = append(e.liveNames, op[1])
+		}
 		return errKind(err)
 	case "readcalls": // readcalls <scenario>: the calls of one GetDescription that touch the definition file
 		return readCallsOp(op[1])
@@ -523,6 +528,17 @@ func (e *eng) doReq(op []string, fault string) string {
 		data = true
 	}
 	b := e.canonBody(res, raw)
+	// a request must not alter the in-memory definition of a live group whose file it did not change
+	// (that copy is what logins are checked against)
+	cache := ""
+	for _, n := range e.liveNames {
+		if w := group.VerifApiCacheCheck(n); w != "" {
+			cache += " cache=" + esc(n) + ":" + w
+		}
+	}
+	if cache != "" {
+		return fmt.Sprintf("%s e=%s b=%s sec=%s data=%s %s%s", status, etag, b, common.B2s(sec), common.B2s(data), e.changes(), cache)
+	}
 	if fault != "none" {
 		strays := e.sweepTemps()
 		return fmt.Sprintf("%s e=%s b=%s sec=%s data=%s strays=%d %s", status, etag, b, common.B2s(sec), common.B2s(data), strays, e.changes())
